@@ -58,6 +58,7 @@ struct Ctx {
     struct aws_log_writer writer;
     FILE *stream = nullptr;
     bool own_file = false;
+    bool uses_stderr = false;
     std::deque<Call> calls;
     std::map<std::pair<int, int>, Call *> by_id;
     std::map<int, Call *> current; // per sim tid: log call in progress
@@ -573,12 +574,19 @@ RunInfo run(const sim::Plan &plan) {
         struct aws_logger_standard_options so;
         AWS_ZERO_STRUCT(so);
         so.level = (enum aws_log_level)c.model_level;
+        bool to_stderr = c.mode == MODE_NOALLOC && plan.get("stderr_default", 0) != 0; // neither a file name nor a FILE*: "uses stderr"
+        if (to_stderr) {
+            simfile::set_stderr_sink(stream_cb, &c);
+            c.uses_stderr = true;
+            own_file = false;
+            sim::probe("noalloc_logger_on_default_stderr");
+        } else
         if (own_file) {
             simfile::set_log_path_sink(stream_cb, &c);
             if (plan.get("fopen_fail", 0)) simfile::set_log_path_fopen_errno((int)plan.get("fopen_fail", 0));
             so.filename = simfile::kLogPath;
             c.own_file = true;
-        } else {
+        } else if (!to_stderr) {
             c.stream = simfile::open_write_stream(stream_cb, &c);
             so.file = c.stream;
         }
@@ -654,7 +662,9 @@ RunInfo run(const sim::Plan &plan) {
         if (c.own_file) {
             if (simfile::log_path_opens() != 1 || simfile::log_path_closes() != 1)
                 sim::violation("c14:file-leak", "logger that opened its own file: %d opens, %d closes after clean-up", simfile::log_path_opens(), simfile::log_path_closes());
-        } else fclose(c.stream);
+        } else if (c.stream) fclose(c.stream);
+        if (simfile::std_stream_closes())
+            sim::violation("c14:closed-standard-stream", "the logger closed a standard stream of the process (%d fclose call(s) on stdin/stdout/stderr)", simfile::std_stream_closes());
     }
     if (c.have_side) {
         aws_logger_clean_up(&c.side);
@@ -696,7 +706,8 @@ void gen(uint64_t seed, int tier, sim::Plan &p) {
     if (r.chance(0.3)) p.cfg["slow_permille"] = r.pick(std::vector<int64_t>{50, 300, 1000});
     if ((mode == 1 || mode == 3) && r.chance(0.04)) p.cfg["create_fail"] = r.pick(std::vector<int64_t>{EAGAIN, ENOMEM, EPERM});
     if (mode == 3 && r.chance(0.03)) p.cfg["file_args"] = r.range(1, 2);
-    if ((mode == 3 || mode == 4) && r.chance(0.4)) {
+    if (mode == 4 && r.chance(0.2)) p.cfg["stderr_default"] = 1;
+    else if ((mode == 3 || mode == 4) && r.chance(0.4)) {
         p.cfg["own_file"] = 1;
         if (r.chance(0.08)) p.cfg["fopen_fail"] = r.pick(std::vector<int64_t>{EACCES, ENOENT, EMFILE});
     }
